@@ -537,7 +537,7 @@ def refinement(run, F):
                 valid = set(('s', p) for p in range(cap))
                 paths = I.explore(fn, lambda: {'_storage': fresh('s')})
                 cases += len(paths)
-                for decisions, res, this_after in paths:
+                for decisions, res, this_after, _assumed in paths:
                     r = None if res is None else bitprov.to_int(res)
                     zero_bits = set(b for key, nz in decisions.items() if not nz for b in key)
                     some_nonzero = any(nz and all(b in valid for b in key) for key, nz in decisions.items())
